@@ -18,3 +18,18 @@ for c, r in zip(cfgs, res):
         if open(p).read() != text:
             print(c["name"], "DIFF", base); bad += 1
 print("differences:", bad)
+
+# the upstream regression driver itself (also compares the list of files written and the 'output' file)
+import subprocess, tempfile, shutil, stat
+tmp = tempfile.mkdtemp(prefix="dotest-")
+try:
+    exe = os.path.join(tmp, "shroud")
+    open(exe, "w").write('#!/bin/bash\nPYTHONPATH=%s exec %s -c "import shroud.main as m; m.main()" "$@"\n' % (common.REPO, sys.executable))
+    os.chmod(exe, 0o755)
+    reg = os.path.join(common.REPO, "regression")
+    p = subprocess.run([sys.executable, "do-test.py"], cwd=reg, capture_output=True, text=True,
+                       env=dict(os.environ, TEST_INPUT_DIR=reg, TEST_OUTPUT_DIR=os.path.join(tmp, "out"), EXECUTABLE_DIR=exe))
+    failed = [ln for ln in p.stdout.split("\n") if "FAILED" in ln]
+    print("upstream do-test.py:", "all pass" if not failed and "All tests passed" in p.stdout else "FAILED %s" % failed)
+finally:
+    shutil.rmtree(tmp, ignore_errors=True)
